@@ -118,9 +118,9 @@ def build(spec):
     targets = list(RELOC_MENUS[rel])
     words = {}
     for k, t in enumerate(REL_TARGETS_P1 + REL_TARGETS_P2):
-        # two pointer-looking values, one small value that goes below zero with the negative delta and one
-        # large value that goes beyond 2^32 with the positive delta (HIGHLOW arithmetic is modulo 2^32)
-        val = ((base + 0x1000) & 0xFFFFFFFF, 0x00000800, 0xFFFFF000, (base + 0x1030) & 0xFFFFFFFF)[k]
+        # one pointer-looking value, one small value that goes below zero with the negative delta, one value that
+        # crosses 2^31 and one that crosses 2^32 with the positive delta (HIGHLOW arithmetic is modulo 2^32)
+        val = ((base + 0x1000) & 0xFFFFFFFF, 0x00000800, 0x7FFFF000, 0xFFFFF800)[k]
         words[t] = val
         dirs_data[t:t + 4] = val.to_bytes(4, "little")
     if hdr == 3:
